@@ -179,6 +179,84 @@ impl StorageEngine {
                 } }),
 //@@ body
 //@@ end
+
+// ---- hash reads that go through iterator chains (HGETALL / HKEYS / HVALS / HMGET): the chains themselves are ASSUMED (helpers below, anchored to
+// the exact expression text); under contract is what surrounds them — the read goes through the lazy purge (C02), refuses another type,
+// answers "empty" for a missing key, and writes nothing
+//@@ unit hgetall fn src/storage/engine.rs StorageEngine::hgetall
+//@@   params drop "db: DatabaseIndex" add "shard_guard: &mut DatabaseShard"
+//@@   rewrite R2
+//@@   rewrite RXPR "hash.iter().map(|(k, v)| (k.clone(), v.clone())).collect()" "verif_hash_pairs(hash)"
+    fn hgetall(&self, shard_guard: &mut DatabaseShard, key: &[u8]) -> (r: Result<Vec<(Vec<u8>, Vec<u8>)>>)
+        ensures
+            unchanged(eff(*old(shard_guard), key_of(key@)), sv(*final(shard_guard))),
+            holds_non_hash(eff(*old(shard_guard), key_of(key@)), key_of(key@)) ==> r is Err,
+            !eff(*old(shard_guard), key_of(key@)).data.contains_key(key_of(key@)) ==> (r matches Ok(v) && v@.len() == 0),
+            hash_at(eff(*old(shard_guard), key_of(key@)), key_of(key@)) matches Some(m) ==> (r matches Ok(v) && pairs_of(v@, m)),
+//@@ body
+//@@ end
+//@@ unit hkeys fn src/storage/engine.rs StorageEngine::hkeys
+//@@   params drop "db: DatabaseIndex" add "shard_guard: &mut DatabaseShard"
+//@@   rewrite R2
+//@@   rewrite RXPR "hash.keys().cloned().collect()" "verif_hash_keys(hash)"
+    fn hkeys(&self, shard_guard: &mut DatabaseShard, key: &[u8]) -> (r: Result<Vec<Vec<u8>>>)
+        ensures
+            unchanged(eff(*old(shard_guard), key_of(key@)), sv(*final(shard_guard))),
+            holds_non_hash(eff(*old(shard_guard), key_of(key@)), key_of(key@)) ==> r is Err,
+            !eff(*old(shard_guard), key_of(key@)).data.contains_key(key_of(key@)) ==> (r matches Ok(v) && v@.len() == 0),
+            hash_at(eff(*old(shard_guard), key_of(key@)), key_of(key@)) matches Some(m) ==> (r matches Ok(v) && v@.no_duplicates() && v@.to_set() == m.dom()),
+//@@ body
+//@@ end
+//@@ unit hvals fn src/storage/engine.rs StorageEngine::hvals
+//@@   params drop "db: DatabaseIndex" add "shard_guard: &mut DatabaseShard"
+//@@   rewrite R2
+//@@   rewrite RXPR "hash.values().cloned().collect()" "verif_hash_vals(hash)"
+    fn hvals(&self, shard_guard: &mut DatabaseShard, key: &[u8]) -> (r: Result<Vec<Vec<u8>>>)
+        ensures
+            unchanged(eff(*old(shard_guard), key_of(key@)), sv(*final(shard_guard))),
+            holds_non_hash(eff(*old(shard_guard), key_of(key@)), key_of(key@)) ==> r is Err,
+            !eff(*old(shard_guard), key_of(key@)).data.contains_key(key_of(key@)) ==> (r matches Ok(v) && v@.len() == 0),
+            hash_at(eff(*old(shard_guard), key_of(key@)), key_of(key@)) matches Some(m) ==> (r matches Ok(v) && vals_of(v@, m)),
+//@@ body
+//@@ end
+//@@ unit hmget fn src/storage/engine.rs StorageEngine::hmget
+//@@   params drop "db: DatabaseIndex" "fields: &[T]" add "shard_guard: &mut DatabaseShard" "fields: &[Vec<u8>]"
+//@@   rewrite R2
+//@@   rewrite RXPR "fields.iter().map(|field| hash.get(field.as_ref()).cloned()).collect()" "verif_hash_lookup(hash, fields)"
+//@@   rewrite RT "vec![None; fields.len()]" "verif_nones(fields.len())"
+    fn hmget(&self, shard_guard: &mut DatabaseShard, key: &[u8], fields: &[Vec<u8>]) -> (r: Result<Vec<Option<Vec<u8>>>>)
+        ensures
+            unchanged(eff(*old(shard_guard), key_of(key@)), sv(*final(shard_guard))),
+            holds_non_hash(eff(*old(shard_guard), key_of(key@)), key_of(key@)) ==> r is Err,
+            // one answer per requested field, in request order: nil for every field of a missing key
+            !eff(*old(shard_guard), key_of(key@)).data.contains_key(key_of(key@)) ==> (r matches Ok(v) && v@.len() == fields@.len() && forall|i: int| 0 <= i < v@.len() ==> #[trigger] v@[i] is None),
+            hash_at(eff(*old(shard_guard), key_of(key@)), key_of(key@)) matches Some(m) ==> (r matches Ok(v) && v@.len() == fields@.len()
+                && forall|i: int| 0 <= i < v@.len() ==> #[trigger] v@[i] == (if m.contains_key(fields@[i]) { Some(m[fields@[i]]) } else { None::<Vec<u8>> })),
+//@@ body
+//@@ end
 }
+/// every (field, value) of the map, each field once
+pub open spec fn pairs_of(v: Seq<(Vec<u8>, Vec<u8>)>, m: Map<Vec<u8>, Vec<u8>>) -> bool {
+    v.len() == m.dom().len() && (forall|i: int| 0 <= i < v.len() ==> m.contains_key((#[trigger] v[i]).0) && m[v[i].0] == v[i].1)
+        && (forall|i: int, j: int| 0 <= i < j < v.len() ==> v[i].0 != v[j].0)
+}
+/// the value of every field, one per field
+pub open spec fn vals_of(v: Seq<Vec<u8>>, m: Map<Vec<u8>, Vec<u8>>) -> bool {
+    exists|ks: Seq<Vec<u8>>| #![auto] ks.no_duplicates() && ks.to_set() == m.dom() && ks.len() == v.len() && forall|i: int| 0 <= i < v.len() ==> v[i] == m[ks[i]]
+}
+/// ASSUMED CONTRACTS for the iterator chains (RXPR sites; std meaning of HashMap::iter / keys / values + map + cloned + collect)
+#[verifier::external_body]
+pub fn verif_hash_pairs(hash: &HashMap<Vec<u8>, Vec<u8>>) -> (r: Vec<(Vec<u8>, Vec<u8>)>) ensures pairs_of(r@, hash@), { unimplemented!() }
+#[verifier::external_body]
+pub fn verif_hash_keys(hash: &HashMap<Vec<u8>, Vec<u8>>) -> (r: Vec<Vec<u8>>) ensures r@.no_duplicates(), r@.to_set() == hash@.dom(), { unimplemented!() }
+#[verifier::external_body]
+pub fn verif_hash_vals(hash: &HashMap<Vec<u8>, Vec<u8>>) -> (r: Vec<Vec<u8>>) ensures vals_of(r@, hash@), { unimplemented!() }
+#[verifier::external_body]
+pub fn verif_hash_lookup(hash: &HashMap<Vec<u8>, Vec<u8>>, fields: &[Vec<u8>]) -> (r: Vec<Option<Vec<u8>>>)
+    ensures r@.len() == fields@.len(), forall|i: int| 0 <= i < r@.len() ==> #[trigger] r@[i] == (if hash@.contains_key(fields@[i]) { Some(hash@[fields@[i]]) } else { None::<Vec<u8>> }),
+{ unimplemented!() }
+/// `vec![None; n]` (RT site)
+#[verifier::external_body]
+pub fn verif_nones(n: usize) -> (r: Vec<Option<Vec<u8>>>) ensures r@.len() == n, forall|i: int| 0 <= i < n ==> #[trigger] r@[i] is None, { unimplemented!() }
 } // verus!
 fn main() {}
